@@ -238,15 +238,17 @@ def fakesock_seg(n):
     return ["all", "bytes", (3, 1, 4, 1, 5, 9, 2, 6), "aftercr", "beforelf"][n % 5]
 
 
-def export_histories(rep, depth, simulate=None, sim_depth=None, seed=0):
+def export_histories(rep, depth, simulate=None, sim_depth=None, seed=0, wire_depth=1):
+    wire = "" if simulate else "INVARIANT WireRefinesAbstract\n"    # the wire-level refinement is checked in the exhaustive run
     cfg = f"""SPECIFICATION Spec
 CONSTANTS
   Depth = {sim_depth if simulate else depth}
   Start = {START}
+  WireDepth = {wire_depth}
 INVARIANT CasTokenAccepted
 INVARIANT CasUnique
 INVARIANT ManyAgrees
-CHECK_DEADLOCK FALSE
+{wire}CHECK_DEADLOCK FALSE
 """
     if simulate:
         r = tlc.run("Cache", cfg_text=cfg, workers=4, simulate=f"num={max(1, simulate // 4)}", depth=sim_depth + 3,
